@@ -104,6 +104,8 @@ def check_case(case):
     except SyntaxError:
         return None
     own = {hy.mangle(n) for n in c14.names_of(rprog)} | HARNESS
+    if '"pop"' in json.dumps(rprog):
+        own.add("pop")  # the program's own (.pop q) method call
     for kind, ident in sorted(identifiers(tree)):
         if ident in own or ident == "hy" or ident.startswith("_hy_"):
             continue
@@ -222,8 +224,8 @@ def shard(ctx):
         if r is not None:
             ctx.fail(case, r[0], r[1])
 
-    ctx.hyp(st.tuples(G.program(budget=40 if ctx.quick else 70, depth=4 if ctx.quick else 5), modes, names), one, ctx.per_shard(1200, 80000), "c01-programs")
-    ctx.hyp(st.tuples(all_lifted_program(30 if ctx.quick else 50, 2 if ctx.quick else 3), modes, names), one, ctx.per_shard(1200, 80000), "all-arguments-lifted")
+    ctx.hyp(st.tuples(G.program(budget=40 if ctx.quick else 70, depth=4 if ctx.quick else 5), modes, names), one, ctx.per_shard(800, 80000), "c01-programs")
+    ctx.hyp(st.tuples(all_lifted_program(30 if ctx.quick else 50, 2 if ctx.quick else 3), modes, names), one, ctx.per_shard(800, 80000), "all-arguments-lifted")
 
     from vf import scopes as S
 
@@ -238,7 +240,7 @@ def shard(ctx):
         if r is not None:
             ctx.fail(case, r[0], r[1])
 
-    ctx.hyp(S.program_strategy("let"), one_scopes, ctx.per_shard(1200, 60000), "scoping-programs")
+    ctx.hyp(S.program_strategy("let"), one_scopes, ctx.per_shard(800, 60000), "scoping-programs")
 
 
 MATCHERS = {}
